@@ -11,7 +11,7 @@ program tokens:
   sample=<rat>           sample(Ts) of the top of the stack
   un=<name>              neg getitem copy rename toSS toTF toFRD toNL sim reach obs modred minreal lin
   pow=<int>
-  bin=<add|sub|mul|div>  fb
+  bin=<add|sub|mul|div>  fb  lft
   series=<n> parallel=<n> append=<n> combine=<n>      n children from the stack
   ic=<n>=<kw>            interconnect of n children, kw: - | N | C | T | D<rat>
 -/
@@ -63,6 +63,10 @@ def buildExpr (cfg : DtArg) (toks : List String) : Except String (Except Err Exp
       else if single == "fb" then
         match st with
         | y :: x :: r => st := Expr.fb x y :: r
+        | _ => throw "dtx:stack"
+      else if single == "lft" then
+        match st with
+        | y :: x :: r => st := Expr.lft x y :: r
         | _ => throw "dtx:stack"
       else
         let o ← DtFam.parseOpnd single
